@@ -179,7 +179,10 @@ def run(chk, replay=None):
                     rep2 = dict(rep, steps=steps, final=final)
                     ok = True
                     for outp, ins, linker in steps:
-                        rc, out = sh(f"cd {d} && {wild if linker == 'wild' else 'ld'} -r {' '.join(ins)} -o {outp}", timeout=120)
+                        # how wild splits its inputs into work groups follows the thread count; exercise both one group and many
+                        conf = r.choice(["--threads=1", "--threads=1", "--threads=2", "--threads=16", ""])
+                        envp = r.choice(["", "", "WILD_FILES_PER_GROUP=1 ", "WILD_FILES_PER_GROUP=8 "])
+                        rc, out = sh(f"cd {d} && {envp if linker == 'wild' else ''}{wild if linker == 'wild' else 'ld'} -r {' '.join(ins)} -o {outp} {conf if linker == 'wild' else ''}", timeout=120)
                         if rc:
                             if linker == "wild":
                                 chk.violation(f"`wild -r` fails on {ins} (seed {seed}): {out.strip()[-200:]}", rep2)
@@ -197,7 +200,7 @@ def run(chk, replay=None):
             for nme, text in files.items():
                 open(f"{d}/{nme}", "w").write(text)
             names = sorted(files)
-            rc, out = sh(f"cd {d} && " + " && ".join(f"as --64 {x} -o {x[:-2]}.o" for x in names) + f" && {wild} -r {' '.join(x[:-2] + '.o' for x in names)} -o comb.o", timeout=120)
+            rc, out = sh(f"cd {d} && " + " && ".join(f"as --64 {x} -o {x[:-2]}.o" for x in names) + f" && {r.choice(['', 'WILD_FILES_PER_GROUP=8 '])}{wild} -r {' '.join(x[:-2] + '.o' for x in names)} -o comb.o {r.choice(['--threads=1', '--threads=4', ''])}", timeout=120)
             if rc:
                 chk.violation(f"`wild -r` fails on generated assembly objects (seed {seed}): {out.strip()[-200:]}", {"seeds": [seed]})
                 continue
